@@ -248,7 +248,7 @@ func solve(query string, timeoutS int, all bool, wantModel bool) SolverResult {
 	solverSem <- struct{}{}
 	defer func() { <-solverSem }()
 
-	dir, err := os.MkdirTemp("", "gvcq")
+	dir, err := os.MkdirTemp(scratchRoot(), "q")
 	if err != nil {
 		return SolverResult{Status: "error", Output: err.Error()}
 	}
@@ -433,4 +433,21 @@ func parseSMTInt(s string) (int64, bool) {
 		n = -n
 	}
 	return n, true
+}
+
+var (
+	tempRoot     string
+	tempRootOnce sync.Once
+)
+
+// scratchRoot is one directory per process so that an exit while solver races are still in
+// flight leaves nothing behind.
+func scratchRoot() string {
+	tempRootOnce.Do(func() {
+		d, err := os.MkdirTemp("", "gvcq")
+		if err == nil {
+			tempRoot = d
+		}
+	})
+	return tempRoot
 }
